@@ -356,6 +356,11 @@ LOOP:
 						c.run(ctx, job)
 					}(job)
 					c.resetTimer()
+				} else {
+					// The timer was aimed at a job that has
+					// since been removed or rescheduled:
+					// aim it at the job that is now first.
+					c.resetTimer()
 				}
 			}
 			c.Unlock()
